@@ -107,8 +107,9 @@ type Exec struct {
 	axioms    int
 	instrs    int64
 	bvInts    bool
-	fpMode    bool    // bit-precise float64 (termfp.go)
-	sch       *gsched // interpreted goroutines of the current path (gorun.go)
+	panicking *GoPanic // the Go-level panic currently unwinding through deferred calls (recover() takes it)
+	fpMode    bool     // bit-precise float64 (termfp.go)
+	sch       *gsched  // interpreted goroutines of the current path (gorun.go)
 	maxViol   int
 	deadline  time.Time
 	reseeds   int
@@ -728,6 +729,15 @@ func (ex *Exec) call(fn *ssa.Function, args []Value, fv []Value, site ssa.Instru
 		return nil
 	}
 	key := fnKey(fn)
+	if strings.HasPrefix(key, "slices.overlaps[") && len(args) == 2 {
+		// the only unsafe-pointer arithmetic of package slices: decided on backing identity and ranges
+		a, aok := args[0].(SliceV)
+		b, bok := args[1].(SliceV)
+		if !aok || !bok || a.n == 0 || b.n == 0 || a.b != b.b {
+			return false
+		}
+		return a.off <= b.off+b.n-1 && b.off <= a.off+a.n-1
+	}
 	if in, ok := stdIntrinsics[key]; ok {
 		return in(ex, fn, args, site)
 	}
@@ -757,6 +767,61 @@ func (ex *Exec) call(fn *ssa.Function, args []Value, fv []Value, site ssa.Instru
 		fr.env[p] = args[i]
 	}
 	blk := fn.Blocks[0]
+	for {
+		ret, cont, done := ex.runBlocks(fr, blk, key)
+		if done {
+			return ret
+		}
+		blk = cont // a deferred call recovered a panic: the function returns through its Recover block
+	}
+}
+
+// runBlocks interprets the function body from blk until it returns.  If a Go-level panic unwinds
+// through a frame that has deferred calls, they run (LIFO); a deferred call that calls recover() stops
+// the panic and the function returns through fn.Recover (named results as they stand).
+func (ex *Exec) runBlocks(fr *frame, blk *ssa.BasicBlock, key string) (ret Value, cont *ssa.BasicBlock, done bool) {
+	fn := fr.fn
+	defer func() {
+		if len(fr.defers) == 0 {
+			return
+		}
+		r := recover()
+		if r == nil {
+			return
+		}
+		gp, ok := r.(*GoPanic)
+		if !ok || gp.Kind == "budget" || gp.Kind == "unsupported" {
+			panic(r) // engine-level: end of path, not a Go panic
+		}
+		saved := ex.panicking
+		ex.panicking = gp
+		for k := len(fr.defers) - 1; k >= 0; k-- {
+			d := fr.defers[k]
+			fr.defers = fr.defers[:k]
+			d()
+		}
+		if ex.panicking == nil {
+			ex.panicking = saved
+			if fn.Recover != nil {
+				cont, done = fn.Recover, false
+				return
+			}
+			res := fn.Signature.Results()
+			switch res.Len() {
+			case 0:
+				ret = nil
+			case 1:
+				ret = ex.zero(res.At(0).Type())
+			default:
+				ret = ex.zero(res)
+			}
+			done = true
+			return
+		}
+		p := ex.panicking
+		ex.panicking = saved
+		panic(p)
+	}()
 	for {
 		var next *ssa.BasicBlock
 		for _, ins := range blk.Instrs {
@@ -792,15 +857,15 @@ func (ex *Exec) call(fn *ssa.Function, args []Value, fv []Value, site ssa.Instru
 			case *ssa.Return:
 				switch len(i.Results) {
 				case 0:
-					return nil
+					return nil, nil, true
 				case 1:
-					return ex.get(fr, i.Results[0])
+					return ex.get(fr, i.Results[0]), nil, true
 				}
 				t := make(Tuple, len(i.Results))
 				for k, r := range i.Results {
 					t[k] = ex.get(fr, r)
 				}
-				return t
+				return t, nil, true
 			case *ssa.Panic:
 				x := ex.get(fr, i.X)
 				msg := "panic"
@@ -811,7 +876,7 @@ func (ex *Exec) call(fn *ssa.Function, args []Value, fv []Value, site ssa.Instru
 						msg = e.msg
 					}
 				}
-				panic(&GoPanic{Kind: "explicit", Msg: msg, Pos: ex.pos2s(i.Pos())})
+				panic(&GoPanic{Kind: "explicit", Msg: msg, Pos: ex.pos2s(i.Pos()), Val: x})
 			default:
 				ex.exec(fr, ins)
 			}
@@ -1381,6 +1446,23 @@ func (ex *Exec) builtin(f *ssa.Builtin, args []Value, c *ssa.CallCommon, site ss
 				ex.store(a.b.cells[a.off+k], ex.zero(a.b.elem), ex.pos2s(site.Pos()))
 			}
 			return nil
+		}
+	case "recover":
+		if p := ex.panicking; p != nil {
+			ex.panicking = nil
+			if p.Val != nil {
+				return p.Val
+			}
+			return Iface{t: types.Universe.Lookup("error").Type(), v: &ErrObj{msg: "runtime error: " + p.Msg}}
+		}
+		return nil
+	case "Sizeof", "Alignof":
+		if c != nil && len(c.Args) == 1 {
+			sz := types.SizesFor("gc", "amd64")
+			if f.Name() == "Sizeof" {
+				return sz.Sizeof(c.Args[0].Type())
+			}
+			return sz.Alignof(c.Args[0].Type())
 		}
 	case "close":
 		c, _ := args[0].(*ChanV)
